@@ -61,13 +61,14 @@ static constexpr sz txtmax()
 static constexpr sz TXTMAX = txtmax();
 static constexpr sz posdigits10() { VT m = std::numeric_limits<VT>::max(); sz n = 0; while (m != 0) { m = VT(m / 10); n++; } return n; }
 // branch witnesses are demanded only where spec.py says the branch is reachable outside the known-finding regions
-// (queries decided through the exported-VC route, NOWIT, must not contain inner witnesses: only the end witness is checked there)
-#if LEN >= 1 && !defined(NOWIT)
+// (queries decided through the exported-VC route, NOWIT, must not contain inner witnesses: only the end witness is checked there;
+//  window queries, ANCHOR, have no inner witnesses either: which branches a window reaches depends on the anchor)
+#if LEN >= 1 && !defined(NOWIT) && !defined(ANCHOR)
 #define WITNESS_FITS vf_witness("fits")
 #else
 #define WITNESS_FITS ((void)0)
 #endif
-#if LEN >= 2 && !defined(NOWIT)
+#if LEN >= 2 && !defined(NOWIT) && !defined(ANCHOR)
 #define WITNESS_FITS_NT vf_witness("fits")
 #else
 #define WITNESS_FITS_NT ((void)0)
@@ -123,7 +124,7 @@ Q q_oracle_model()
 }
 
 // to_chars(first, last, value, base) against std::to_chars for a buffer of exactly LEN bytes
-static void check_to_chars(bool defbase)
+template <bool defbase> static void check_to_chars()
 {
     char* buf = (char*)vf_alloc(LEN); char* orig = (char*)vf_alloc(LEN);
     for (sz i = 0; i < LEN; i++) { buf[i] = orig[i] = char(vf_nd_u8()); }
@@ -146,9 +147,9 @@ static void check_to_chars(bool defbase)
             else vf_assert(buf[i] == orig[i], "to_chars leaves [ptr, last) untouched on success (as libstdc++ does)");
         }
     } else {
-        if (!defbase) WITNESS_TOO_LARGE;
+        if constexpr (!defbase) WITNESS_TOO_LARGE;
 #if !defined(ANCHOR) && !defined(NOWIT)
-        if constexpr (LEN < posdigits10()) { if (defbase) vf_witness("too_large_base10"); }
+        if constexpr (defbase && LEN < posdigits10()) vf_witness("too_large_base10");
 #endif
         vf_assert(ec == 1, "to_chars reports value_too_large when the std text does not fit");
         vf_assert(*op == buf + LEN, "to_chars ptr == last on value_too_large");
@@ -165,8 +166,8 @@ Q q_oracle_fit()
     if (er.ec == std::errc{}) { vf_assert(er.ptr == e2 + n, "same length"); for (sz i = 0; i < LEN; i++) if (i < n) vf_assert(e2[i] == e[i], "same text"); }
     else { vf_assert(er.ec == std::errc::value_too_large && er.ptr == e2 + LEN, "std error result"); }
 }
-Q q_to_chars() { check_to_chars(false); }
-Q q_to_chars_def() { check_to_chars(true); }
+Q q_to_chars() { check_to_chars<false>(); }
+Q q_to_chars_def() { check_to_chars<true>(); }
 
 // strings::from_integer (default options: NUL-terminated): digits == std::to_chars, then '\0'; needs text length + 1 <= LEN
 Q q_from_integer()
